@@ -250,6 +250,32 @@ let cmd_readjournal file =
    | RErr ChecksumMismatch -> Printf.printf "end err journal:ChecksumMismatch\nlen %d\n" (List.length bytes)
    | ROutOfFuel -> print_endline "end outoffuel")
 
+(* many cuts of one journal in one process (shares the hash cache):
+   stdin lines "<m> <pad>", output: the readjournal lines for C[:m] ++ zeros pad, then "--" *)
+let cmd_cuts file =
+  let ic = open_in_bin file in let len = in_channel_length ic in
+  let s = really_input_string ic len in close_in ic;
+  let arr = Array.init len (fun i -> n_of_int (Char.code s.[i])) in
+  (try while true do
+    let l = input_line stdin in
+    match split ' ' (String.trim l) with
+    | [m; pad] ->
+        let m = int_of_string m and pad = int_of_string pad in
+        let rec zeros k acc = if k = 0 then acc else zeros (k - 1) (N0 :: acc) in
+        let rec pre i acc = if i < 0 then acc else pre (i - 1) (arr.(i) :: acc) in
+        let bytes = pre (m - 1) (zeros pad []) in
+        let (bs, out) = read_journal hash compress decompress bytes in
+        List.iter (fun b -> print_endline (batch_str b)) bs;
+        (match out with
+         | RStop n -> Printf.printf "end ok\nlen %s\n" (string_of_n n)
+         | RErr InsufficientLength -> Printf.printf "end err journal:InsufficientLength\nlen %d\n" (m + pad)
+         | RErr TooManyItems -> Printf.printf "end err journal:TooManyItems\nlen %d\n" (m + pad)
+         | RErr ChecksumMismatch -> Printf.printf "end err journal:ChecksumMismatch\nlen %d\n" (m + pad)
+         | ROutOfFuel -> print_endline "end outoffuel");
+        print_endline "--"; flush stdout
+    | _ -> ()
+  done with End_of_file -> ())
+
 (* encode: stdin lines "batch <seqno> <items> | <clears>" in writer order is lost (items before clears);
    the writer emits one record kind per batch, which is all the implementation ever produces *)
 let cmd_encode comp_s thr_s =
@@ -274,5 +300,6 @@ let () =
   match Array.to_list Sys.argv with
   | [_; "run"; cfg; file] -> cmd_run cfg file
   | [_; "readjournal"; file] -> cmd_readjournal file
+  | [_; "cuts"; file] -> cmd_cuts file
   | [_; "encode"; comp; thr] -> cmd_encode comp thr
   | _ -> prerr_endline "usage: fjm run <as_is|ideal|bits> <program> | readjournal <file> | encode <none|lz4> <threshold>"; exit 2
